@@ -12,6 +12,11 @@ PROP = {'pkg': 'github.com/ProjectSerenity/firefly/kernel/sync',
             'checks_quick': 120,
             'checks_thorough': 4000,
             'shards_quick': 1,
+            'shards_thorough': 1},
+           {'name': 'TestVerifC08Litmus',
+            'checks_quick': 80,
+            'checks_thorough': 3000,
+            'shards_quick': 1,
             'shards_thorough': 1}],
  'rule': '(1) rapid generates a linear history of (worker, acquire|try|release) executed by hand-shake on per-worker '
          'goroutines and compared with an exact model (holder, set of blocked workers): try returns true iff free, an '
@@ -19,13 +24,18 @@ PROP = {'pkg': 'github.com/ProjectSerenity/firefly/kernel/sync',
          'Non-trivial = >=1 Acquire issued while the lock was held. (2) generated per-worker programs (2-16 workers, '
          'critical-section lengths, try percentage) run freely on all cores; holders counter, non-atomic counter and a '
          '4-word record must stay consistent. Non-trivial = measured contention (failed tries or acquire attempts that '
-         'saw the lock held) > 0. distinct = hash of the JSON case.',
- 'technique': 'rapid model-based sequential histories + generated parallel stress with in-critical-section invariants',
+         'saw the lock held) > 0. (3) two locks, two tasks: each releases its own lock and at once tries the other one, '
+         'thousands of rounds per case on a spin barrier; both tries failing in one round is impossible for a correct '
+         'lock (store-buffering litmus). Non-trivial = at least two different outcomes seen among the rounds of the '
+         'case. distinct = hash of the JSON case.',
+ 'technique': 'rapid model-based sequential histories + generated parallel stress with in-critical-section invariants '
+              '+ generated two-lock litmus rounds',
  'level_text': 'The sequential specification of Acquire/TryToAcquire/Release is decided exactly under a harness-owned '
                'schedule; mutual exclusion and visibility under true parallelism are sampled over generated programs '
                'with measured contention. Schedules are sampled, not enumerated.',
- 'level_note': 'yieldFn is set to runtime.Gosched (as the repository test does); x86-TSO hides memory-ordering '
-               'defects; a defect needing one rare interleaving of two instructions can be missed.',
+ 'level_note': 'yieldFn is set to runtime.Gosched (as the repository test does); x86-TSO hides most memory-ordering '
+               'defects (the store-to-load reordering it does allow is attacked by the two-lock litmus); a defect '
+               'needing one rare interleaving of two instructions can be missed.',
  'assumptions': ['blocked = did not return within 300us while the model says the lock is held (delay can only hide a '
                  'defect, never fake one)',
                  'an Acquire that should proceed is given 5s'],
